@@ -1184,7 +1184,7 @@ def check_options_readonly(prog, rep):
             if '.' not in gq:
                 continue
             cname = gq.split('.')[0]
-            ci = ct.get(cname)
+            ci = ct.lookup(cname, m)
             if ci is None:
                 continue
             opt = _options_derived_locals(g)
